@@ -103,9 +103,10 @@ static void race(const void *addr, int is_write, int atomic_now, int other_tid, 
                  opc ? " in " : "", opc ? f2 : "");
 }
 
+const void *mcrt_canon_addr(const void *a) __attribute__((weak));
 static void access_bytes(const void *addr, size_t size, int is_write, int atomic, const void *pc)
 {
-    uintptr_t a = (uintptr_t)addr, end = a + size; int me = my_tid; uint32_t *myvc = T[me].vc;
+    uintptr_t a = (uintptr_t)(mcrt_canon_addr ? mcrt_canon_addr(addr) : addr), end = a + size; int me = my_tid; uint32_t *myvc = T[me].vc;
     if (!mc_active && nthreads <= 1) { /* zygote init: single threaded, still record writes so later readers are ordered via creation */ }
     while (a < end) {
         uintptr_t gran = a & ~(uintptr_t)7; int b0 = (int)(a - gran), b1 = (int)((end < gran + 8 ? end : gran + 8) - gran), b, t;
